@@ -171,12 +171,9 @@ def slice_de(ctx, rng, n_cases):
 
 def run(ctx):
     out = [slice_topk(ctx, ctx.rng(1), ctx.size(1500, 20000)), slice_de(ctx, ctx.rng(2), ctx.size(400, 5000))]
-    try:
-        from .. import runs
+    from .. import runs
 
-        out += runs.monitor_slices(ctx, "C12")
-    except ImportError:
-        pass
+    out.append(runs.monitor_batch(ctx, "C12", ctx.size(40, 600), force=lambda rng: {"engines": {0: ["sea", "seax", "ga", "adapt", "de", "ded", "shade"]}}))
     return out
 
 
@@ -184,4 +181,7 @@ def search(ctx, broken):
     v = []
     v += slice_topk(ctx, ctx.rng(71), 8000).violations
     v += slice_de(ctx, ctx.rng(72), 2000).violations
+    from .. import runs
+
+    v += runs.monitor_batch(ctx, "C12", 300, salt=73).violations
     return v
